@@ -329,8 +329,9 @@ func Run(cfg fw.Config, rec *fw.Rec) {
 		return
 	}
 	rec.Rule = "two-node machines whose action and guards are hostile programs over the permanent keys (delete, overwrite, keep-only, copy-over, push, return {} / a fresh object / null / a number, fail, reject) run from states with 0-3 permanent bindings (scalar, nested, array, null, false values) and 0-3 ordinary ones, native (two failure modes; and a variant that mutates the bindings it is given in place, as core's Bindings.Remove / Extend / DeleteExcept do) and ECMAScript; plus interpreted scripts that change everything below structured permanent values (objects inside arrays inside objects) and then succeed / throw / return null / return a fresh object, as action and as guard, under 3 error settings; plus random multi-node machines; for every stride the permanent bindings present before must be present and equal after, unless the node's action returned null (recorded, not judged); non-trivial = stride checked with >= 1 permanent binding; distinct by canonical (spec,state)"
-	rec.Required = []string{"strides_with_permanent_checked", "after_failing_action", "after_completed_action", "guard_rejected_then_next_branch", "guard_accepted", "render_ecma", "render_native", "render_native-inplace", "structured_permanent_value", "unjudged_action_returned_null", "native_walks_under_a_cancelled_context", "scripts_mutating_below_permanent_bindings"}
+	rec.Required = []string{"array_valued_permanent_bindings_resliced_by_native_code", "strides_with_permanent_checked", "after_failing_action", "after_completed_action", "guard_rejected_then_next_branch", "guard_accepted", "render_ecma", "render_native", "render_native-inplace", "structured_permanent_value", "unjudged_action_returned_null", "native_walks_under_a_cancelled_context", "scripts_mutating_below_permanent_bindings"}
 	nestedInPlace(rec)
+	reslicedPermanent(rec)
 	n := cfg.Pick(60000, 3000000)
 	fw.Parallel(cfg.Workers, n, func(w, i int) {
 		r := cfg.Rng("c18", i)
